@@ -55,6 +55,37 @@ def run(prop, tier, seed, ctx):
         ctx.violation("C08|%s|%s|corpus" % (names.get(str(clause), "error"), t["feature"]),
                       "corpus file %s, feature %s: event %d rejected (%s): %s %s" % (
                           t["file"], t["feature"], pos, names.get(str(clause), clause), json.dumps(t["events"][pos - 1])[:200], t.get("error", "")), t)
+    # ---- sessions: several queries against ONE parsed root (history independence, specs/StaticSession.tla)
+    scfg = "MC_StaticSession_q.cfg" if tier == "quick" else "MC_StaticSession_t.cfg"
+    sres = tlc.run("StaticSession", scfg, workers=8, timeout=600)
+    tlc.require_ok(sres, scfg)
+    ctx.add_tlc(sres, "query sessions on one root: HistoryIndependent, NothingSurvives " + scfg)
+    scases = list(enumerate(sres.records))
+    smism = shard_map("bind.static", "session_replay_chunk", scases)
+    ctx.cov["replayed_cases"] += len(scases)
+    ctx.count(len(scases), ("session:" + json.dumps(r, sort_keys=True) for _, r in scases if len({h["f"] for h in r["hist"]}) > 1))
+    for m in smism:
+        if m["kind"] == "environment":
+            raise MachineryError("session environment model wrong: %s\n%s" % (m["detail"], m["source"]))
+        ctx.violation("C08|session|%s|after-%s" % (fam(m["f"]), "+".join(sorted({fam(x) for x in m.get("earlier", [])})) or "nothing"),
+                      "query %s as step %d of a session on one report (earlier: %s): found %s, thresholds imply %s, syntax tree has %s  ::  %s" % (
+                          m["f"], m["step"], m.get("earlier"), m.get("found", m.get("detail")), m.get("pinned"), m.get("expected"),
+                          m["source"].strip().replace("\n", " / ")[:200]), m)
+    straces = shard_map("bind.static", "session_record_chunk", files, extra=seed, chunk=4)
+    acc_s, rej_s, tres_s = tlc.validate_traces("TraceStatic", "TraceStatic.cfg", [t["events"] for t in straces], timeout=1200)
+    ctx.add_tlc(tres_s, "trace validation of %d corpus sessions (all features on one report, shuffled order)" % len(straces))
+    ctx.cov["traces_validated_against_impl"] += len(straces)
+    ctx.count(len(straces), ("session-trace:%s" % t["file"] for t in straces))
+    for tid, pos, clause in rej_s:
+        t = straces[tid - 1]
+        evn = t["events"][pos - 1]
+        ctx.violation("C08|%s|session|corpus" % names.get(str(clause), "error"),
+                      "corpus session on %s: event %d (%s) rejected (%s): %s %s" % (
+                          t["file"], pos, evn.get("f"), names.get(str(clause), clause), json.dumps(evn)[:200], t.get("error") or ""), t)
+    mres2 = tlc.run("StaticSession", "MUT_StaticSession_visitor_reused.cfg", workers=2, timeout=300)
+    if "HistoryIndependent" not in mres2.violated:
+        raise MachineryError("mutant visitor_reused did not violate HistoryIndependent")
+    ctx.notes.append("self-test: a visitor reused across queries violates HistoryIndependent")
     mres = tlc.run("MC_Static", "MUT_Static_bad_table_rows.cfg", workers=2, timeout=300)
     if "ThresholdLaw" not in mres.violated:
         raise MachineryError("mutant bad_table_rows did not violate ThresholdLaw")
@@ -66,6 +97,10 @@ def replay(prop, rep):
     from engine.core import setup_repo_path
     setup_repo_path()
     r = rep["replay"]
+    if "case" in r:
+        out = B.session_replay_chunk([(0, r["case"])], None)
+        print(json.dumps(out, indent=1, default=repr)[:2000])
+        return 1 if out else 0
     if "q" in r:
         out = B.replay_chunk([(0, {"q": r["q"], "fires": "yes" if r.get("expected") else "no"})], None)
         print(json.dumps(out, indent=1, default=repr)[:2000])
